@@ -344,7 +344,9 @@ def histOp (st : HistState) (op : String) (args : List String) : Option (HistSta
     let w ← st.w
     let (to, ts) ← pTok args
     let (cs, _) ← pCoins ts
-    if !(USERS.contains to) then some (st, "err") else
+    -- only plain denoms: a mint of something shaped like a pool's LP token would break the "LP token of a pool not yet created
+    -- has no supply" invariant (`MintInv.mint_nonfactory_breaks_allInv`); `MintL.notLp_of_noPrefix` is the soundness of this guard
+    if !(USERS.contains to) || cs.any (fun c => "factory/pm/".toList.isPrefixOf c.denom.toList) then some (st, "err") else
     match ({ w.bank with calls := 0, failAt := none } : Bank).mint to cs with
     | .ok bank => some ({ st with w := some { w with bank := { bank with calls := w.bank.calls, failAt := w.bank.failAt } } }, "ok")
     | .error _ => some (st, "err")
